@@ -1,10 +1,11 @@
 /-
 `Parser.parse_method` of the block parser: the dispatch over the bound handlers (core handlers of
-`Mistune.Model.Block`, plugin handlers of `Mistune.Model.BlockPluginsB`), and the entry point `blockParse`.
+`Mistune.Model.Block`, plugin handlers of `Mistune.Model.BlockPluginsB` and `Mistune.Model.BlockPluginsA`), and the entry point `blockParse`.
 (Moved verbatim from the end of `Mistune.Model.Block` so that plugin handler files can import the core handlers.)
 -/
 import Mistune.Model.Block
 import Mistune.Model.BlockPluginsB
+import Mistune.Model.BlockPluginsA
 namespace Mistune
 namespace Model
 namespace Blk
@@ -26,7 +27,9 @@ def parseMethod (cfg : MdCfg) : Nat → ParseMethod
     | "indent_code" => parseIndentCode cfg mt st
     | "thematic_break" => parseThematicBreak mt st
     | "ref_link" => parseRefLink cfg mt st
-    | "block_quote" => parseBlockQuote cfg pm mt st
+    | "block_quote" =>
+      -- the plugin `spoiler` rebinds `_methods["block_quote"]`
+      if spoilerActive cfg then parseBlockSpoiler cfg pm mt st else parseBlockQuote cfg pm mt st
     | "list" => parseList cfg pm mt st
     | "block_html" => parseRawHtml cfg mt st              -- `parse_block_html`
     | "raw_html" => parseRawHtml cfg mt st
@@ -36,6 +39,9 @@ def parseMethod (cfg : MdCfg) : Nat → ParseMethod
     | "ref_footnote" => if registered cfg "ref_footnote" then parseRefFootnote cfg mt st else .error .keyError
     | "def_list" => if registered cfg "def_list" then parseDefList cfg pm mt st else .error .keyError
     | "ref_abbr" => if registered cfg "ref_abbr" then parseRefAbbr cfg mt st else .error .keyError
+    -- `Mistune.Model.BlockPluginsA`: math, speedup (spoiler: see `block_quote`)
+    | "block_math" => if registered cfg "block_math" then parseBlockMath cfg mt st else .error .keyError
+    | "paragraph" => if registered cfg "paragraph" then parseParagraph mt st else .error .keyError
     | _ => .error .keyError
 
 /-- nesting budget for a source: every nested activation of a handler (child parse or break rule) owns at least
